@@ -12,6 +12,7 @@ type rnode struct {
 	kind string // lit, dot, class, seq, alt, star, plus, opt, bol, eol
 	c    byte
 	neg  bool
+	esc  string // class written as an escape (\d \D \w \W \s \S) in Go's syntax; neg / rs say what it stands for
 	rs   [][2]byte
 	kids []*rnode
 }
@@ -23,6 +24,9 @@ func (n *rnode) goText() string {
 	case "dot":
 		return "."
 	case "class":
+		if n.esc != "" {
+			return n.esc
+		}
 		var b strings.Builder
 		b.WriteString("[")
 		if n.neg {
@@ -149,6 +153,9 @@ func (g *patGen) atom(depth int) *rnode {
 	case r < 13:
 		return &rnode{kind: "dot"}
 	case r < 16:
+		if g.rng.Chance(30) {
+			return escClass(g.rng.Intn(6))
+		}
 		classes := [][][2]byte{{{'0', '9'}}, {{'a', 'c'}}, {{'A', 'Z'}}, {{'1', '1'}, {'3', '5'}}, {{'a', 'z'}, {'0', '9'}}}
 		return &rnode{kind: "class", neg: g.rng.Chance(20), rs: classes[g.rng.Intn(len(classes))]}
 	default:
@@ -253,4 +260,24 @@ func (g *patGen) name() string {
 		return w + " "
 	}
 	return w
+}
+
+// escClass: the escape classes of Go's syntax with what they stand for (names are ASCII).
+func escClass(k int) *rnode {
+	digit := [][2]byte{{'0', '9'}}
+	word := [][2]byte{{'0', '9'}, {'A', 'Z'}, {'_', '_'}, {'a', 'z'}}
+	space := [][2]byte{{9, 10}, {12, 13}, {' ', ' '}}
+	switch k % 6 {
+	case 0:
+		return &rnode{kind: "class", esc: `\d`, rs: digit}
+	case 1:
+		return &rnode{kind: "class", esc: `\D`, neg: true, rs: digit}
+	case 2:
+		return &rnode{kind: "class", esc: `\w`, rs: word}
+	case 3:
+		return &rnode{kind: "class", esc: `\W`, neg: true, rs: word}
+	case 4:
+		return &rnode{kind: "class", esc: `\s`, rs: space}
+	}
+	return &rnode{kind: "class", esc: `\S`, neg: true, rs: space}
 }
